@@ -38,11 +38,21 @@ func (r *SigningBatchProposalStartRequest) Validate() error {
 	if r.CreatedAt.IsZero() {
 		return errors.New("{CreatedAt} is not set")
 	}
+	named := false
 	for _, m := range r.SigningTasks {
 		err := m.Validate()
 		if err != nil {
 			return fmt.Errorf("failed to validate signing task %+v: %w", m, err)
 		}
+		if m.Payload != nil || m.RangeStart < m.RangeEnd {
+			named = true
+		}
+	}
+	// a batch that expands to no message (only empty ranges) can never be answered: every
+	// participant's (empty) list of partial signatures is refused, nobody has a failure to
+	// report, and the round never returns to idle
+	if !named {
+		return errors.New("{SigningTasks} name no message to sign")
 	}
 	return nil
 }
